@@ -81,6 +81,7 @@ type c05Case struct {
 	Mult   []int  `json:"mult,omitempty"`  // small: multiplicity (0..2) of each universe signature
 	Order  int    `json:"order,omitempty"` // small: 0 = grouped ascending, 1 = two passes (descending, then ascending)
 	Meta   int    `json:"meta"`            // metadata shape: 0, 1 or 3 pairs
+	Procs  int    `json:"procs,omitempty"` // small: processors the Go runtime is told to use while the case runs (0 = as started)
 	Pair   int    `json:"pair,omitempty"`  // small: which prefix pair the universe uses (c05Pairs)
 	Pop    string `json:"pop,omitempty"`   // pop: name of the populations layout
 	MaxP   int    `json:"max_p,omitempty"`
@@ -344,6 +345,10 @@ func c05RunSmall(R *vkit.Report, c c05Case) {
 		}
 	}
 	queries := append(append([][64]byte{}, uni...), c05Probes(c.Pair)...)
+	if c.Procs > 0 {
+		prev := runtime.GOMAXPROCS(c.Procs)
+		defer runtime.GOMAXPROCS(prev)
+	}
 	nonTrivial := false
 	perPrefix := map[uint16]int{}
 	for i, m := range c.Mult {
@@ -508,7 +513,7 @@ func TestVerif_C05(t *testing.T) {
 			os.RemoveAll(c05Scratch)
 		}
 	}()
-	R.Rule = "reference model = per two-byte prefix the set of xxhash64 values of the added signatures. (small-universe) every multiset with multiplicity 0..2 over a universe of signatures on two prefixes x two insertion orders x metadata of 0/1/3 pairs, one real writer each; (populations) one file in which prefix p holds exactly p signatures for every p = 0..P plus populations 2^k-1, 2^k, 2^k+1 up to 4097, and a mirrored file with every signature put twice. After Seal every added signature must be present through Open (mmap), through NewReader over an in-memory ReaderAt over a ReaderAt that reports io.EOF together with the last bytes of the input and over one that returns nothing at all for a read crossing the end, never-added signatures whose hash differs from all added ones of the prefix must be absent, and Writer.Has (before and after Seal) must agree with the file. One evaluation = one writer (small-universe) or one (prefix, population) pair (populations); non-trivial = a duplicate or at least two signatures in one prefix."
+	R.Rule = "reference model = per two-byte prefix the set of xxhash64 values of the added signatures. (small-universe) every multiset with multiplicity 0..2 over a universe of signatures on two prefixes x two insertion orders x metadata of 0/1/3 pairs x the runtime told to use its processors as started, 3 or 6 of them, one real writer each; (populations) one file in which prefix p holds exactly p signatures for every p = 0..P plus populations 2^k-1, 2^k, 2^k+1 up to 4097, and a mirrored file with every signature put twice. After Seal every added signature must be present through Open (mmap), through NewReader over an in-memory ReaderAt over a ReaderAt that reports io.EOF together with the last bytes of the input and over one that returns nothing at all for a read crossing the end, never-added signatures whose hash differs from all added ones of the prefix must be absent, and Writer.Has (before and after Seal) must agree with the file. One evaluation = one writer (small-universe) or one (prefix, population) pair (populations); non-trivial = a duplicate or at least two signatures in one prefix."
 	// child mode: exactly one populations case, report goes to the parent
 	if cj := os.Getenv("VERIF_C05_CHILD"); cj != "" {
 		var c c05Case
@@ -592,17 +597,21 @@ func TestVerif_C05(t *testing.T) {
 			for order := 0; order < orders; order++ {
 				for meta := 0; meta < 3; meta++ {
 					for pair := range c05Pairs {
-						if !next() {
-							continue
-						}
-						if R.Expired() {
-							R.Note("[%s] deadline reached at case %d", c05Format, idx)
-							return
-						}
-						c := c05Case{Format: c05Format, Part: "small", Mult: mult, Order: order, Meta: meta, Pair: pair}
-						c05RunSmall(R, c)
-						if code%97 == 50 && order == 1 && meta == 2 {
-							R.Sample(c)
+						// the number of processors is part of the configuration a writer runs under: as started, and
+						// two counts that do not divide the 65 536 prefixes
+						for _, procs := range []int{0, 3, 6} {
+							if !next() {
+								continue
+							}
+							if R.Expired() {
+								R.Note("[%s] deadline reached at case %d", c05Format, idx)
+								return
+							}
+							c := c05Case{Format: c05Format, Part: "small", Mult: mult, Order: order, Meta: meta, Pair: pair, Procs: procs}
+							c05RunSmall(R, c)
+							if code%97 == 50 && order == 1 && meta == 2 {
+								R.Sample(c)
+							}
 						}
 					}
 				}
@@ -613,6 +622,7 @@ func TestVerif_C05(t *testing.T) {
 		R.Bounds[c05Format+":multiplicity"] = "0..2"
 		R.Bounds[c05Format+":insertion_orders"] = 2
 		R.Bounds[c05Format+":metadata_shapes"] = "0, 1, 3 pairs"
+		R.Bounds[c05Format+":processors"] = "as started, 3, 6"
 	}
 	R.Assume("the 64-bit hash named by the property is xxhash64 of the 64 signature bytes (computed independently by the harness)")
 	R.Assume("metadata content read-back is informational; the statement only demands membership answers whatever the metadata")
